@@ -268,4 +268,61 @@ def cleanIndex (next : Nat → BitVec 64 → Nat) (c : Cluster) (self : Id) (idx
   let contained := containedShards next c idx.name idx.avail self
   idx.locals.filter (fun f => contained.contains f.shard)
 
+/-! ### a follower learns the final membership (`mergeClusterStatus` + `unprotectedSetState`)
+
+When a resize completes the coordinator broadcasts its ClusterStatus (state NORMAL, the final node
+list).  Every other node merges the node list into its own and then applies the state; applying
+NORMAL or DEGRADED while RESIZING triggers `holderCleaner.CleanHolder` against the node list the
+cluster value holds *at that moment*. -/
+
+inductive CState where
+  | starting
+  | normal
+  | degraded
+  | resizing
+deriving DecidableEq, Repr
+
+/-- one node of a cluster as far as the status merge is concerned -/
+structure Follower where
+  cluster : Cluster
+  state : CState
+  self : Id
+  coordinator : Id
+  indexes : List Index
+deriving Repr
+
+/-- `ClusterStatus`: state, node ids, and which of them carries `IsCoordinator` -/
+structure Status where
+  state : CState
+  nodes : List Id
+  coordinator : Id
+deriving Repr
+
+/-- the two loops of `mergeClusterStatus` over the node list: add every official node
+(`addNode` -> `addNodeBasicSorted`), then remove every node that is neither official nor this node. -/
+def mergeNodes (nodes : List Id) (self : Id) (official : List Id) : List Id :=
+  let added := official.foldl addNode nodes
+  let toRemove := added.filter (fun n => !(n = self) && !containsID official n)
+  toRemove.foldl removeNode added
+
+/-- `unprotectedSetState`: unchanged state is ignored; RESIZING -> NORMAL/DEGRADED runs CleanHolder
+with the current node list. -/
+def setState (next : Nat → BitVec 64 → Nat) (f : Follower) (st : CState) : Follower :=
+  if st = f.state then f
+  else
+    let doCleanup := (st = .normal ∨ st = .degraded) ∧ f.state = .resizing
+    { f with state := st
+             indexes := if doCleanup then f.indexes.map (fun ix => { ix with locals := cleanIndex next f.cluster f.self ix })
+                        else f.indexes }
+
+/-- `cluster.mergeClusterStatus`: ignored on the coordinator; otherwise the node list is merged
+first and the state is applied afterwards. -/
+def mergeClusterStatus (next : Nat → BitVec 64 → Nat) (f : Follower) (cs : Status) : Follower :=
+  if f.coordinator = f.self then f
+  else
+    let coord := if containsID cs.nodes cs.coordinator then cs.coordinator else f.coordinator
+    let f' := { f with cluster := { f.cluster with nodes := mergeNodes f.cluster.nodes f.self cs.nodes }
+                       coordinator := coord }
+    setState next f' cs.state
+
 end PV.C21
